@@ -296,11 +296,11 @@ inductive UseCMapEntry where
 
 /-- the parent `Extract` installs -/
 inductive ParentRes where
-  | none        -- no parent (also: `usecmap` with a name that is not predefined; the error is dropped)
+  | none        -- no parent (also: a name that is not a predefined CMap, in the PostScript body or
+                -- in the dictionary: since 34bbc85 `Extract` of an unknown name is a
+                -- MalformedFileError, which the caller tolerates — only read errors are propagated)
   | predefined  -- `Predefined(name)`
   | embedded    -- the CMap extracted from the referenced stream
-  | error       -- `Extract` fails as a whole (a `/UseCMap` NAME that is not a predefined CMap: the
-                -- error of `Predefined` is not a MalformedFileError, so `IsReadError` lets it through)
   deriving DecidableEq, Repr
 
 /-- `Extract` (font/cmap/file.go): `if useCMap := dict["UseCMap"]; useCMap != nil { Decode(useCMap,
@@ -310,7 +310,7 @@ def resolveParent (dict : UseCMapEntry) (psName : Option Bool) : ParentRes :=
   match dict with
   | .stream => .embedded
   | .name true => .predefined
-  | .name false => .error
+  | .name false => .none
   | .absent =>
     match psName with
     | some true => .predefined
